@@ -44,7 +44,7 @@ def write_gro(path, title, residues, coordseed, vel, box=(3.0, 4.0, 5.0), atomid
         if vel:
             s += "%8.4f%8.4f%8.4f" % tuple(vels[i])
         lines.append(s)
-    lines.append("%10.5f%10.5f%10.5f" % tuple(box))
+    lines.append(("%10.5f" * len(box)) % tuple(box))     # 3 numbers, or 9 in GROMACS order for a triclinic cell
     with open(path, "w", newline="\n") as f:
         f.write("\n".join(lines) + "\n")
     return len(atoms)
